@@ -14,4 +14,16 @@ CLAIMS = {
         text="Proof (Verus, unbounded): the real body of add() (macro impl_policy, instantiated for LFUPolicy) is verified for all resident sets, cost vectors, max_cost, estimator states and incoming (key,cost): room => admitted without eviction; sample of at most 5 resident pairs (all if fewer); the scan picks the least popular sampled candidate; every victim is no more popular than the newcomer; evictions happen only while room is lacking; rejection only if some resident is strictly more popular.",
         note="TinyLFU::estimate is abstract here (a pure function of the estimator state; its body is under contract in the sketch/tinylfu units). HashMap iteration order is arbitrary (vstd iterator spec). Termination of the eviction loop is not proved (exec_allows_no_decreases_clause).",
     ),
+    "C13": dict(
+        text="Proof (Verus, unbounded over hashes, widths and histories): CountMinRow::{new,get,increment,reset,clear}, CountMinSketch::{new,increment,estimate,reset,clear}, Bloom::{new,add,contains,contains_or_add,reset,clear} and TinyLFU::{new,estimate,increment,increments,try_reset,reset,clear,contains} are extracted from src/sketch.rs, src/bbloom.rs, src/policy.rs and verified: a counter saturates at 15 and never spills into its neighbour, reset halves every counter, estimate is the minimum over the four rows plus one for the doorkeeper, aging fires exactly when the window reaches num_counters. The history clause (estimate >= min(16, #recorded since last aging); zero on fresh/cleared) is a set of lemmas proved by induction over those postconditions.",
+        note="Bloom::set/is_set (raw pointers) are assumed in Verus and proved by Kani on the real code for the 512-bit layout (1024 in the thorough tier). Row seeds are arbitrary (RNG dropped, rule RS). f64 sizing of the doorkeeper is trusted to yield 1..=64 probes. u64::next_power_of_two is an assumed std spec.",
+    ),
+    "C14": dict(
+        text="Proof of the deterministic part: Kani proves on the real unsafe code that set(i) makes exactly bit i visible to is_set (all indices, all array contents, 512-bit layout; 1024 in thorough); Verus proves over that contract that add(h) sets exactly the set_locs positions ((h>>shift) + i*low) & size, contains(h) holds iff all are set, bits are never cleared by add (no false negatives until reset/clear), and reset/clear empty the filter; get_size returns the power of two >= max(n,512). So the structure is a standard m-bit k-probe double-hashing Bloom filter with independent cells.",
+        note="The false-positive RATE is not a contract: given independent cells, m >= entries and k probes it follows from the textbook analysis assuming uniformly distributed hashes (assumed, not checked; the lane-R oracle samples it only when searching for a counterexample). f64 sizing (ln, powf, ceil) is trusted. Little-endian target.",
+    ),
+    "C20": dict(
+        text="Proof of panic-freedom of the data-structure layer for every accepted configuration: Verus checks every index, shift and arithmetic operation of the contracted functions under their well-formedness invariants, and that the constructors establish those invariants for every accepted parameter (CountMinSketch::new for every num_counters >= 1 incl. 1 and non powers of two, get_size/Bloom::new for every capacity, TinyLFU::new, SampledLFU for any max_cost); zero num_counters is rejected.",
+        note="The three zero checks in finalize(), thread spawning, channels and buffer sizes are outside both back ends (their function bodies spawn threads); worker liveness and allocation failure are not decided. num_counters <= 2^62.",
+    ),
 }
